@@ -82,6 +82,9 @@ CURATED_TEXT = {
 'choice_readme': "token Id Num Eq Semi LPar RPar Ws; skip Ws; start top; top: stmt; stmt^: decl_stmt / expr_stmt; decl_stmt: type Id ~ [Eq expr] Semi; expr_stmt: expr Semi; expr: Id | Num | LPar (type RPar !1 ~ expr / expr RPar); type: Id;",
 'choice_rename_to_rule': "token A B C D E; start s; s: (x D / x E) [y]; x: A @y | B; y: C;",
 'choice_create_named_rule': "token A B C D E; start s; s: (x D / x E) [y]; x: <1 A B 1>y; y: C;",
+'choice_rename_early': "token A B C D; start s; s: x D; x: (A @ab B / A C);",
+'choice_elide_early': "token A B C D; start s; s: x D; x: (A ^ B / A C);",
+'choice_create_early': "token A B C D; start s; s: x D; x: (<1 A 1>a B / A C);",
 'choice_rename': "token A B C D; start s; s: x D; x: (A B @ab / A C @ac);",
 'choice_elide': "token A B C D; start s; s: x D; x: (A B ^ / A C);",
 'choice_create': "token A B C D; start s; s: (<1 A B 1>ab / A C) D;",
@@ -226,6 +229,40 @@ def coverage_family():
     }
     for n, t in rec.items():
         g = parse_simple(t, name='cov_' + n); g.meta['family'] = 'coverage'; out.append(g)
+    return out
+
+# ---------------------------------------------------------------- contexts x features product family
+PRODUCT_CONTEXTS = {
+    'plain': 's: x E; x: A {F} D;',
+    'elided': 's: x E; x^: A {F} D;',
+    'condelide': 's: x E; x: A {F} (D ^ | E B);',
+    'loop': 's: x E; x: (A {F} D)* G;',
+    'opt': 's: x E; x: [A {F} D] G;',
+    'plus': 's: x E; x: (A {F})+ G;',
+    'alt': 's: x E; x: (A {F} D | B) G;',
+    'choice1': 's: x E; x: (A {F} D / A E) G;',
+    'choice2': 's: x E; x: (A E / A {F} D) G;',
+    'choice1early': 's: x E; x: (A {F} D D / A B) G;',
+    'prattatom': 's: e E; e: e G e | A {F} D;',
+    'prattop': 's: e E; e: e G {F} e | A;',
+    'part': 'part x; s: E x E; x: A {F} D;',
+    'twocalls': 's: x E x; x: A {F} D;',
+}
+PRODUCT_FEATURES = {
+    'tok': ('B', ''), 'opt': ('[B]', ''), 'star': ('B*', ''), 'plus': ('B+', ''), 'nested': ('[B C*]', ''), 'alt': ('(B | C)', ''),
+    'altnull': ('(B | [C])', ''), 'rename': ('B @rn', ''), 'renameopt': ('[B @rn]', ''), 'create': ('<1 B 1>mk', ''),
+    'createopt': ('<1 B [C 1>mk]', ''), 'createloop': ('<1 B (C 1>mk)*', ''), 'whole': ('[B >]', ''), 'action': ('#1 B #2', ''),
+    'assert': ('!1 B', ''), 'ret': ('& B', ''), 'predopt': ('[?1 B]', ''), 'predstar': ('(?1 B)*', ''), 'ptrue': ('[?t B]', ''),
+    'call': ('y', 'y: B [C];'), 'callelided': ('z', 'z^: B | C;'), 'callnullable': ('w', 'w: [B] C*;'),
+}
+def product_family():
+    out = []
+    for cn, ctx in PRODUCT_CONTEXTS.items():
+        for fn, (snip, extra) in PRODUCT_FEATURES.items():
+            txt = f'token A B C D E G Ws; skip Ws; start s; {ctx.replace("{F}", snip)} {extra}'
+            try: g = parse_simple(txt, name=f'px_{cn}_{fn}')
+            except SyntaxError: continue
+            g.meta['family'] = 'product'; out.append(g)
     return out
 
 # ---------------------------------------------------------------- parts x constructs family
